@@ -4,13 +4,13 @@ The prompt contains ONLY the property's text and the worktree path (nothing from
 import json, subprocess, sys, os
 pid = sys.argv[1]
 tag = sys.argv[2] if len(sys.argv) > 2 else ""
-ROUND2 = tag.startswith(("-r2", "-r3", "-r4", "-r5", "-r6"))
+ROUND2 = tag.startswith(("-r2", "-r3", "-r4", "-r5", "-r6", "-r7"))
 import glob
 prev = []
 if ROUND2:
     for mp in sorted(glob.glob(f"/verif/seeded/{pid}-*/meta.json")):
         prev.append((json.load(open(mp)).get("summary") or "")[:200])
-NUMS = ("16,17,18" if tag.startswith("-r6") else "13,14,15" if tag.startswith("-r5") else "10,11,12" if tag.startswith("-r4") else ("7,8,9" if tag.startswith("-r3") else "4,5,6")) if ROUND2 and prev else "1,2,3"
+NUMS = ("19,20,21" if tag.startswith("-r7") else "16,17,18" if tag.startswith("-r6") else "13,14,15" if tag.startswith("-r5") else "10,11,12" if tag.startswith("-r4") else ("7,8,9" if tag.startswith("-r3") else "4,5,6")) if ROUND2 and prev else "1,2,3"
 wt = f"/tmp/seed/{pid}{tag}"
 props = {json.loads(l)["id"]: json.loads(l) for l in open("/verif/properties.jsonl")}
 p = props[pid]
